@@ -33,9 +33,10 @@ static std::string rand_handle() {
   // ... the empty string (an ordinary key), and pairs of distinct strings that collide under the usual string hashes (FNV-1a 32: costarring/liquid,
   // declinate/macallums; multiplier-31: Aa/BB, AaAa/BBBB; djb2: hetairas/mentioner): a registry keyed by a hash must still keep them apart
   static const std::string H[] = {"A", "B", "C", "d e", "E-1", "twin-src", "A ", " A", "a", "E1", LONG64 + "-one", LONG64 + "-two", "",
-                                  "costarring", "liquid", "declinate", "macallums", "Aa", "BB", "AaAa", "BBBB", "hetairas", "mentioner"};
+                                  "costarring", "liquid", "declinate", "macallums", "Aa", "BB", "AaAa", "BBBB", "hetairas", "mentioner",
+                                  "case_%d", "load=50%%", "%s%s", "%5$n"};   // ... and handles that are printf formats (a handle is data, never a format)
   int k = R->below(6);
-  if (k == 0) return H[6 + R->below(7)];
+  if (k == 0) return R->below(3) == 0 ? H[23 + R->below(4)] : H[6 + R->below(7)];
   if (k == 1) { int pair = R->below(5); return H[13 + 2 * pair + R->below(2)]; }
   return H[R->below(6)];
 }
@@ -47,6 +48,11 @@ static std::string pick_sol() {
 }
 
 template <class S> static S draw_value(S def, bool wild) {
+  if (wild && sizeof(S) > 8 && R->below(3) == 0) {
+    // finite long double values outside the range of double (a bound or a conversion written for double would mistreat them)
+    static const long double XL[] = {1e400L, -1e400L, 1e-400L, -1.234567890123456e-2000L, -9.876543210987654e+4000L, 3.5e4931L, -3.645199531882474e-4951L};
+    return (S)XL[R->below(7)];
+  }
   if (wild) {
     switch (R->below(5)) {
       case 0: return (S)R->uni(-100.0L, 100.0L);
